@@ -1,18 +1,44 @@
 HOOK_COMMITS = ["067ee76"]
 NOTES = ("All checks run the real rosu-pp implementation (path dependency on /repo, rebuilt by cargo from the current working tree on every invocation, hooks on). "
-         "Exit codes: 0 held (possibly KNOWN-FINDING lines), 1 VIOLATION, 2 machinery failure. Known findings: /verif/KNOWN_FINDINGS.txt.")
+         "Exit codes: 0 held (possibly KNOWN-FINDING lines), 1 VIOLATION, 2 machinery failure. Known findings: /verif/KNOWN_FINDINGS.txt. "
+         "Seeded property-breaking changes and which checks catch them: /verif/seeded/ and DESIGN.md §7.")
+E1 = "E1-shape-enumerator"
+E2 = "E2-explicit-state-explorer"
+E3 = "E3-baton-scheduler"
 ENGINES = [
-    {"name": "E1-shape-enumerator", "path": "harness/src/gen.rs, harness/src/ctx.rs", "serves_properties": ["C02"], "kind_free_text": "bounded-exhaustive enumeration of .osu texts / settings / score specifications, decoded and executed on the real code"},
-    {"name": "E2-explicit-state-explorer", "path": "harness/src/explore.rs", "serves_properties": [], "kind_free_text": "BFS over operation histories on live objects with canonical-key de-duplication and a same-key-same-observation oracle"},
-    {"name": "E3-baton-scheduler", "path": "harness/src/baton.rs", "serves_properties": [], "kind_free_text": "all interleavings of k real OS threads' API calls, one runnable at a time"},
+    {"name": E1, "path": "harness/src/gen.rs, harness/src/uni.rs, harness/src/ctx.rs", "serves_properties": [], "kind_free_text": "bounded-exhaustive enumeration of .osu texts / settings / score specifications (indexed universes, all indices visited, 16 threads), decoded and executed on the real code"},
+    {"name": E2, "path": "harness/src/explore.rs", "serves_properties": [], "kind_free_text": "BFS over operation histories on live objects (fresh object per history, handlers replayed) with canonical-key de-duplication and a same-key-same-observation oracle"},
+    {"name": E3, "path": "harness/src/baton.rs", "serves_properties": [], "kind_free_text": "all interleavings of k real OS threads' API calls, one runnable at a time"},
 ]
+def c(engine, technique, ref, text, note):
+    return {"engine": engine, "technique": technique, "design_ref": ref, "text": text, "note": note}
+BOUND = "bounds (object count N, alphabets, menus) as reported per run in evidence.coverage.universes and .rule; behaviours needing larger or differently shaped inputs are outside the claim; continuous parameters are gridded"
 CHECKS = {
-    "C02": {
-        "engine": "E1-shape-enumerator",
-        "technique": "bounded-exhaustive enumeration of map shapes x mode configurations x settings on the real code, against a one-shot reference",
-        "design_ref": "DESIGN.md §3 C02",
-        "text": "Every map of <= N objects over the stated alphabet, in all 7 mode configurations and every setting of the menu, is walked with the real gradual calculator; each value is compared with the one-shot passed_objects(i) result, the announced len() with the number of values, the final value with the full calculation. Exhaustive inside the bound, nothing sampled.",
-        "note": "bound: N<=3 quick / N<=4 thorough objects, alphabet and menus as reported in evidence.coverage.universes; divergences needing more or differently shaped objects are outside the claim",
-    },
+    "C02": c(E1, "bounded-exhaustive enumeration of map shapes x mode configurations x settings on the real code, against a one-shot reference", "DESIGN.md §3 C02",
+             "Every grammar map of <= N objects in all 7 mode configurations and every setting of the menu is walked with the real gradual calculator; each value is compared with the one-shot passed_objects(i) result, the announced len() with the number of values, the final value with the full calculation. Exhaustive inside the bound, nothing sampled.", BOUND),
+    "C03": c(E2, "explicit-state BFS over next/nth/last x score-state histories of the real gradual performance calculator, one-shot reference per step", "DESIGN.md §4 C03",
+             "For every grammar map and setting a breadth-first search over all histories of {next, nth(1), nth(2), nth(N), last} x 7 score states on a live GradualPerformance; every step is compared with the one-shot Performance at the reference position, len() with the reference, states keyed by position with a same-key-same-observation oracle.", BOUND),
+    "C04": c(E1, "bounded-exhaustive enumeration of maps x Difficulty x score specifications x every entry point, two generations of attribute reuse", "DESIGN.md §3 C04",
+             "Every entry point (Performance::new/from with &map, map, DifficultyAttributes, PerformanceAttributes, mode attributes; attrs.performance(); mode-specific builders) is run with the same Difficulty and score specification and must return the reference result; embedded difficulty attributes must equal the one-shot difficulty; results are fed back once more to catch drift.", BOUND),
+    "C07": c(E1, "bounded-exhaustive enumeration of native maps x target modes x conversion-relevant mods x Difficulty settings", "DESIGN.md §3 C07",
+             "The three conversion entry points, identity / who-converts / marking rules, re-conversion of converts, and every dispatching API (calculate_for_mode, strains_for_mode, gradual constructors, Performance::try_mode / mode_or_ignore, OsuPerformance::try_mode) are compared with the same call on the explicitly converted map.", BOUND),
+    "C08": c(E1, "exhaustive enumeration of all valid legacy mod subsets in five representations, rate grid and DifficultyAdjust grid", "DESIGN.md §3 C08",
+             "All subsets of the 12 legacy mods accepted by rosu-mods (x key mods for mania) in up to five representations, lazer rate mods on a 0.01 grid against clock_rate(r), lazer DifficultyAdjust on a 0.1 grid against Difficulty::ar/cs/hp/od(v,false); exact equality of difficulty, strains and three performance results on a pool of maps per mode configuration.", BOUND + "; mod combinations rosu-mods marks incompatible (DT+HT, EZ+HR, ...) are not enumerated"),
+    "C09": c(E1, "bounded-exhaustive enumeration of (degenerate) maps x settings x prefixes x all consistent score states, Debug-dump scan", "DESIGN.md §3 C09",
+             "Every grammar map incl. degenerate shapes under the settings menu, every prefix and every score state consistent with the prefix counts; all float fields of difficulty attributes, strains and performance attributes must be finite, all but ar/hp non-negative, accuracies in [0,1], zero generated hits => 0 pp.", BOUND),
+    "C12": c(E1, "exhaustive enumeration of synthetic attribute shapes x provided/absent hit-result patterns x accuracy x priority x origin x passed_objects x combo", "DESIGN.md §3 C12",
+             "2*10^7 (quick) score specifications on synthetic attribute shapes: misses <= objects, provided results that fit are kept and the results add up to the number of judgements, combo achievable, generate_state idempotent, calculate() == .state(generated).calculate().", BOUND + "; one open known finding (catch tiny droplet counts re-derived from accuracy) is pinned by the repository's own proptest"),
+    "C13": c(E1, "exhaustive enumeration of small attribute shapes x miss counts x origins x tie-point target grid, brute-force optimum as oracle", "DESIGN.md §3 C13",
+             "For every small shape, miss count, origin and priority the target grid contains every achievable accuracy and every midpoint between neighbours (+-1e-9); the generated state must have the given misses and be at least as close as the brute-force optimum over all distributions with the same misses.", BOUND),
+    "C14": c(E1, "bounded-exhaustive enumeration of maps x mods x every passed_objects value, independent counter over the converted map", "DESIGN.md §3 C14",
+             "An independent counter over the (converted) Beatmap is compared with the reported counts for every n in 0..=total+2: per-kind split, min(n,total), monotonicity, n > total == unlimited, is_convert.", BOUND),
+    "C15": c(E2, "explicit-state BFS over iterator-protocol histories on live gradual calculators, reference = plain iteration + position", "DESIGN.md §4 C15",
+             "For every grammar map and setting a breadth-first search over all histories of next / nth(k) (k in 0..3, N, N+1, usize::MAX) / len / size_hint plus terminal std adaptors (step_by, skip, collect, last, count, zip), and of next/nth/last/len on the gradual performance calculator; key = (position, calls after exhaustion).", BOUND),
+    "C16": c(E1, "bounded-exhaustive enumeration of maps (long gaps, objects before time zero) x settings x prefixes, independent re-aggregation", "DESIGN.md §3 C16",
+             "Peaks finite and >= 0, equal section counts across skills, section count equal to an independent count from the object times (rate 1), re-aggregated peaks reproduce stars (catch, mania) and flashlight (osu!).", BOUND),
+    "C19": c(E1, "bounded-exhaustive enumeration of osu!standard maps (sounds, velocity points, versions) x key mods 1K-10K", "DESIGN.md §3 C19",
+             "Every grammar osu! map is converted to taiko, catch and mania (no key mod and 1K-10K): ordering, durations, control points, one sound per taiko object, mania key count and column range (computed independently of the crate's clamping helper), catch untouched.", BOUND),
 }
 NOT_APPLICABLE = {}
+for e in ENGINES:
+    e["serves_properties"] = sorted(k for k, v in CHECKS.items() if v["engine"] == e["name"])
